@@ -12,7 +12,12 @@ Tie (every run):
      the method *executed* under a recording evaluator (which schema it binds, what it forwards) vs the
      model's `eagerNode`; `Opset.__getitem__/__contains__/__getattr__` and `onnx.defs.get_schema` vs `lookup`;
   T4 `Opset._prepare_inputs` vs `prepareInputs` on random lists;
-  T5 eager calls with defaults omitted vs explicitly built bare nodes on onnxruntime (numeric).
+  T5 eager calls with defaults omitted vs explicitly built bare nodes on onnxruntime (numeric);
+  T6 in-process regeneration with /repo/opgen; T7 `separate_input_attributes_from_arguments` vs `separate`;
+  T8 translation vs eager; T9 lookup histories vs `run`; T10/T11 exported imports vs `convert/exportImports`;
+  T12 the whole eager chain (generated method -> Op.__call__ -> BaseEvaluator.eval_op -> the real
+     `_prepare_model_and_inputs_for_eager`) captured as a ModelProto on every resolving cell (own methods x 10 argument
+     patterns, inherited methods x 2) vs the model's `eagerRun` (driver `emodel`), with its own oracle on the real model.
 Oracle of the property, on the real objects only (no model involved): `oracle_cell`.
 """
 from __future__ import annotations
@@ -1038,6 +1043,224 @@ def main(run: core.Run) -> None:
     stats["prepare_cases"] = n_prep
 
     lap("prepare_inputs")
+    # ---------------- T12: the WHOLE eager path up to the one-node model handed to the runtime
+    # real generated method -> real Op.__call__ -> real BaseEvaluator.eval_op (op_signature, _adapt_attributes,
+    # autocast) -> `_eval` hook -> real evaluator._prepare_model_and_inputs_for_eager  vs  the model's `eagerRun`
+    import numpy as _np12
+    import onnx as _onnx12
+    from onnxscript import tensor as _tensor12
+
+    _AT = real.defs.OpSchema.AttrType
+    em_captured: list = []
+
+    class _CapEval(real.evaluator.BaseEvaluator):
+        def _eval(self, schema, inputs, attributes, closure):
+            model, feeds, in_names = real.evaluator._prepare_model_and_inputs_for_eager(schema, inputs, attributes, closure)
+            em_captured.append((schema, model, feeds, in_names))
+            return [None] * len(model.graph.output)
+
+    _cap_eval = _CapEval()
+
+    def _attr_val(a, i):
+        tt = a.type
+        if tt == _AT.INT:
+            return 7 + i
+        if tt == _AT.FLOAT:
+            return 0.5 + i
+        if tt == _AT.STRING:
+            return "s%d" % i
+        if tt == _AT.INTS:
+            return [1, 2 + i]
+        if tt == _AT.FLOATS:
+            return [0.25, 1.0 + i]
+        if tt == _AT.STRINGS:
+            return ["a", "b%d" % i]
+        return None  # tensors, graphs, type protos: not sent (a required one skips the method)
+
+    def _arr(k):
+        return _tensor12.Tensor(_np12.full((2,), k, _np12.float32))
+
+    def _em_patterns(mm, sch):
+        """(args as index-or-None list, kwargs) patterns: defaults omitted / inner None / all-trailing None / variadic with
+        an inner None / every simple keyword explicit / one keyword explicitly None / only inputs None (boundary)."""
+        npos = len(mm["pos"])
+        nreq = sum(1 for _, dd in mm["pos"] if dd[0] == "absent")
+        kw_all, kw_req = {}, {}
+        for i, (k, dd) in enumerate(mm["kwonly"]):
+            v = _attr_val(sch.attributes[k], i) if k in sch.attributes else None
+            if v is None:
+                if dd[0] == "absent":
+                    return None
+                continue
+            kw_all[k] = v
+            if dd[0] == "absent":
+                kw_req[k] = v
+        pats = [("defaults_omitted", list(range(nreq)), dict(kw_req))]
+        if npos > nreq:
+            pats.append(("all_trailing_none", list(range(nreq)) + [None] * (npos - nreq), dict(kw_req)))
+            if npos - nreq >= 2:
+                mid = list(range(npos))
+                for i in range(nreq, npos - 1):
+                    mid[i] = None
+                pats.append(("inner_none", mid, dict(kw_req)))
+            if nreq == 0:
+                pats.append(("only_none", [None] * npos, dict(kw_req)))
+        if mm["vararg"]:
+            pats.append(("variadic_inner_none", list(range(npos)) + [100, None, 101, None], dict(kw_req)))
+            pats.append(("variadic_empty", list(range(npos)), dict(kw_req)))
+        if nreq >= 2 and not kw_req:
+            # a Python scalar as the second input: `autocast.dynamic_cast_inputs` turns it into a tensor in place
+            pats.append(("py_scalar_input", list(range(nreq)), {}))
+        if kw_all:
+            pats.append(("all_keywords", list(range(nreq)), dict(kw_all)))
+            opt = [k for k in kw_all if k not in kw_req]
+            if opt:
+                k0 = opt[run.rng.randrange(len(opt))]
+                kws2 = dict(kw_all)
+                kws2[k0] = None
+                pats.append(("keyword_none", list(range(nreq)), kws2))
+        return pats
+
+    def _attr_tok(ap):
+        v = _onnx12.helper.get_attribute_value(ap)
+        if isinstance(v, bytes):
+            v = v.decode("utf-8")
+        elif isinstance(v, list):
+            v = [x.decode("utf-8") if isinstance(x, bytes) else x for x in v]
+        return tok_pyvalue(v)
+
+    em_lines, em_expect = [], []
+    # every cell in which a method resolves: the class's own methods with every pattern; INHERITED methods (class version
+    # above the bound schema's since_version — the only cells where "import = since_version" and "import = class version"
+    # differ) with the first pattern and one seeded other
+    em_resolved: dict = {}
+    for c, n in cells:
+        r = t_resolve(data, c["domain"], c["version"], n)
+        if r is not None:
+            em_resolved.setdefault(c["name"], []).append((r[1], r[2]["name"] != c["name"]))
+    for c in data["classes"]:
+        inst = insts.get(c["name"])
+        if inst is None:
+            continue
+        d, N = c["domain"], c["version"]
+        for mm, inherited in em_resolved.get(c["name"], []):
+            n = mm["name"]
+            if mm.get("stub"):
+                continue
+            if replay_only is not None and not (replay_only.get("cls") == c["name"] and replay_only.get("op") == n):
+                continue
+            sch = real.get_schema(n, N, d)
+            if sch is None or sch.deprecated:
+                continue
+            pats = _em_patterns(mm, sch)
+            if pats is None:
+                stats["emodel_skipped_complex_required_attr"] += 1
+                continue
+            if inherited:
+                pats = [pats[0]] + ([pats[1 + run.rng.randrange(len(pats) - 1)]] if len(pats) > 1 else [])
+            for kind, aidx, kws in pats:
+                args = [None if k is None else _arr(k) for k in aidx]
+                if kind == "py_scalar_input":
+                    args[1] = float(aidx[1])
+                em_captured.clear()
+                try:
+                    with real.evaluator.default_as(_cap_eval):
+                        getattr(inst, n)(*args, **kws)
+                    err = None
+                except Exception as e:  # noqa: BLE001
+                    err = e
+                if err is not None or len(em_captured) != 1:
+                    msg = f"{type(err).__name__}: {str(err)[:120]}" if err is not None else f"{len(em_captured)} models"
+                    # documented refusals outside the modelled path: `compute_num_outputs` cannot tell Split's number of outputs
+                    # from these sentinel calls (no `split` values / `num_outputs=None`); four schemas have no OpSignature in
+                    # onnx_ir (duplicate parameter name / map types)
+                    if err is not None and ((n == "Split" and d == "") or "Duplicate parameter name" in str(err)
+                                            or (isinstance(err, KeyError) and d == "ai.onnx.ml")):
+                        stats["emodel_refused_documented"] += 1
+                        continue
+                    # onnx's own validation of the finished one-node model (e.g. a variadic input with no argument at all):
+                    # the call did reach `_prepare_model_and_inputs_for_eager`; min-arity is the schema's business, not modelled
+                    if err is not None and type(err).__name__ in ("InferenceError", "ValidationError"):
+                        stats["emodel_refused_by_onnx_inference"] += 1
+                        continue
+                    stats["emodel_raised"] += 1
+                    oracle_failures.append((c["name"], n, [f"eager call {c['name']}.{n}(inputs {aidx}, {kws}) does not reach the runtime: {msg}"]))
+                    continue
+                schema_used, model, feeds, in_names = em_captured[0]
+                node = model.graph.node[0]
+                imports = [(o.domain, int(o.version)) for o in model.opset_import]
+                names = list(node.input)
+                idx = ["-" if x == "" else (x[5:] if x.startswith("input") else "?" + x) for x in names]
+                feed_toks = []
+                for fk, fv in feeds.items():
+                    fv = _np12.asarray(fv)
+                    feed_toks.append(f"{fk[5:] if fk.startswith('input') else '?' + fk}={int(fv.reshape(-1)[0])}")
+                real_line = (
+                    f"{enc(node.op_type)} {enc(node.domain)} | " + " ".join(idx) + " | "
+                    + " ".join(f"{enc(a.name)}={_attr_tok(a)}" for a in node.attribute)
+                    + " | " + " ".join(f"{enc(dd)}:{vv}" for dd, vv in imports) + f" | {int(model.ir_version)} | " + " ".join(feed_toks)
+                )
+                em_lines.append(f"emodel {enc(d)} {N} {enc(n)} {pat_tokens(aidx, kws)}")
+                em_expect.append((c["name"], n, real_line, aidx, kws))
+                stats["emodel_calls"] += 1
+                stats["emodel_kind_" + kind] += 1
+                stats["emodel_domain_" + (d or "default")] += 1
+                if inherited:
+                    stats["emodel_inherited_method"] += 1
+                if imports and imports[0][1] < N:
+                    stats["emodel_import_below_class_version"] += 1
+                if "" in names:
+                    stats["emodel_empty_input_name"] += 1
+                if len(names) < len(aidx):
+                    stats["emodel_trimmed"] += 1
+                if any(v is None for v in kws.values()):
+                    stats["emodel_none_keyword_dropped"] += 1
+                if int(model.ir_version) == 10:
+                    stats["emodel_ir_floor_10"] += 1
+                elif int(model.ir_version) > 10:
+                    stats["emodel_ir_above_10"] += 1
+                # --- the property's own statement on the real model (independent of the Lean model)
+                probs = []
+                try:
+                    sch_rt = real.defs.get_schema(node.op_type, imports[0][1], node.domain) if len(imports) == 1 else None
+                except Exception:  # noqa: BLE001
+                    sch_rt = None
+                k_true = (sch.name, int(sch.since_version), sch.domain)
+                k_rt = None if sch_rt is None else (sch_rt.name, int(sch_rt.since_version), sch_rt.domain)
+                if k_rt != k_true:
+                    probs.append(f"the one-node model (op_type {node.op_type!r}, domain {node.domain!r}, opset_import {imports}) denotes {k_rt}; "
+                                 f"get_schema({n!r}, {N}, {d!r}) is {k_true}")
+                want = list(aidx)
+                while want and want[-1] is None:
+                    want.pop()
+                want_names = ["" if k is None else f"input{i}" for i, k in enumerate(want)]
+                if names != want_names:
+                    probs.append(f"node inputs {names}, arguments {aidx} (expected {want_names})")
+                want_feeds = {f"input{i}": k for i, k in enumerate(want) if k is not None}
+                got_feeds = {fk: int(_np12.asarray(fv).reshape(-1)[0]) for fk, fv in feeds.items()}
+                if got_feeds != want_feeds:
+                    probs.append(f"session feeds {got_feeds}, arguments {aidx} (expected {want_feeds})")
+                carried = {a.name: _attr_tok(a) for a in node.attribute}
+                for k, v in kws.items():
+                    if v is None and k in carried:
+                        dv = attr_default_py(sch.attributes[k])
+                        if dv is None or tok_pyvalue(dv) != carried[k]:
+                            probs.append(f"keyword {k}=None arrives as attribute {carried[k]}")
+                    if v is not None and carried.get(k) != tok_pyvalue(v):
+                        probs.append(f"keyword {k}={v!r} arrives as {carried.get(k)}")
+                for k, tokv in carried.items():
+                    if k not in kws:
+                        dv = attr_default_py(sch.attributes[k]) if k in sch.attributes else None
+                        if dv is None or tok_pyvalue(dv) != tokv:
+                            probs.append(f"attribute {k}={tokv} on the node: not written by the caller and not the schema default")
+                if probs:
+                    oracle_failures.append((c["name"], n, [f"eager {c['name']}.{n}(inputs {aidx}, {kws}): " + probs[0]] + probs[1:]))
+    if drv is not None and em_lines:
+        outs = drv.ask(em_lines)
+        for (cn, n, exp, aidx, kws), o, ln in zip(em_expect, outs, em_lines):
+            if o != exp:
+                tie_broken.append(f"one-node eager model of {cn}.{n} [{ln}]: real `{exp}` vs model eagerRun `{o}`")
+    lap("whole eager path: one-node models")
     # ---------------- T5: numeric eager vs bare node
     numeric_failures = []
     n_numeric = 0
@@ -1555,7 +1778,11 @@ def main(run: core.Run) -> None:
                     "sep_inner_placeholder", "sep_err_missingRequired", "sep_err_unexpectedKw", "sep_err_tooManyArgs", "translation_equal_default",
                     "translation_equal_ai.onnx.ml", "t10_explicit_version_exports", "t10_decorator_version_exports", "t10_equal",
                     "t10_import_means_class", "t10_mixed_refused", "t10_option_applies", "conv_ok", "conv_twoOpsets", "conv_noDefault",
-                    "conv_ok_with_version_conflict_warning", "conv_option_applies", "conv_option_ignored", "deprecated_stub_raises", "cell_stub", "prep_trimmed_0", "prep_trimmed_1", "prep_trimmed_3", "cell_SM", "cell_--"]
+                    "conv_ok_with_version_conflict_warning", "conv_option_applies", "conv_option_ignored", "deprecated_stub_raises", "cell_stub", "emodel_kind_defaults_omitted", "emodel_kind_all_trailing_none",
+                    "emodel_kind_inner_none", "emodel_kind_only_none", "emodel_kind_variadic_inner_none", "emodel_kind_variadic_empty",
+                    "emodel_kind_all_keywords", "emodel_kind_keyword_none", "emodel_kind_py_scalar_input", "emodel_domain_default", "emodel_domain_ai.onnx.ml",
+                    "emodel_domain_ai.onnx.preview", "emodel_empty_input_name", "emodel_trimmed", "emodel_none_keyword_dropped",
+                    "emodel_ir_floor_10", "emodel_ir_above_10", "emodel_inherited_method", "emodel_import_below_class_version", "prep_trimmed_0", "prep_trimmed_1", "prep_trimmed_3", "cell_SM", "cell_--"]
         zero = [k for k in required if not stats[k]]
         # a zero counter with a clean verdict means the generator degenerated; with a violation already printed it is a consequence
         if zero and not run.violations:
